@@ -59,8 +59,10 @@ class Adapter(object):
         """parameters for which 0 is an ordinary value (fixing a parameter
         at 0 / at a python int is still fixing it)"""
         toy = [n for n in self.full_names if n in ('k', 'b')]
+        # (location parameters and the covariate coefficients acting on
+        # them; coefficients on scales could leave the support)
         pop = [n for n in self.full_names
-               if n.startswith(('Mean ', 'Log mean ')) or ' Cov. ' in n]
+               if n.startswith(('Mean ', 'Log mean '))]
         return toy + pop
 
     def names(self, obj):
@@ -694,9 +696,117 @@ def exhaustive_case(ctx, rng, idx):
     run_history(ctx, rng, ad, hist, 'exhaustive')
 
 
+def sibling_case(ctx, rng, idx):
+    """objects that were built from the same (already reduced) user objects
+    are independent: fixing / releasing on one leaves its siblings - and the
+    controller or error model they came from - exactly as they were"""
+    route = ['shared_reduced_error_model', 'controller'][idx % 2]
+    cname = sorted(D.ERROR_MODELS)[(idx // 2) % 4]
+    em_names = getattr(chi, cname)().get_parameter_names()
+    n_em = len(em_names)
+    fixed_em = {em_names[int(rng.integers(n_em))]: float(
+        rng.uniform(0.2, 0.5))}
+    feats = {'route': route, 'error_model': cname, 'fixed': sorted(fixed_em)}
+    ctx.case(('sibling', route, cname, tuple(sorted(fixed_em))), True,
+             sample=feats)
+    times = [np.sort(rng.choice(GL.POOL[1:], size=3, replace=False))
+             for _ in range(2)]
+    obs = [rng.uniform(1, 4, size=3) for _ in range(2)]
+
+    def build():
+        if route == 'controller':
+            rows = []
+            for i in range(2):
+                for tt, vv in zip(times[i], obs[i]):
+                    rows.append({'ID': i + 1, 'Time': float(tt),
+                                 'Observable': 'Out 1', 'Value': float(vv)})
+            c = chi.ProblemModellingController(
+                toys.ToyMulti(1), getattr(chi, cname)())
+            c.set_data(pd.DataFrame(rows))
+            c.fix_parameters(dict(fixed_em))
+            n = c.get_n_parameters()
+            c.set_log_prior(pints.ComposedLogPrior(*[
+                pints.GaussianLogPrior(0.5, 3) for _ in range(n)]))
+            posts = [c.get_log_posterior(individual=str(i + 1))
+                     for i in range(2)]
+            return c, [q.get_log_likelihood() for q in posts]
+        rem = chi.ReducedErrorModel(getattr(chi, cname)())
+        rem.fix_parameters(dict(fixed_em))
+        return rem, [chi.LogLikelihood(toys.ToyMulti(1), rem, obs[i],
+                                       times[i]) for i in range(2)]
+    try:
+        src, (a, b) = build()
+        src_t, (_, b_twin) = build()
+    except Exception as e:      # noqa
+        ctx.violation_exc('construction_raises', e, {'case': feats}, feats)
+        return
+    full = ['a1', 'k', 'b'] + list(em_names)
+
+    def src_names(o):
+        return list(o.get_parameter_names())
+
+    def snapshot(ll):
+        nm = list(ll.get_parameter_names())
+        x = np.array([{'a1': 2.0, 'k': 0.3, 'b': 0.4}.get(n_, 0.3)
+                      for n_ in nm])
+        s_, g_ = ll.evaluateS1(x)
+        return {'names': nm, 'n_parameters': ll.n_parameters(),
+                'value': ll(x), 's1_score': s_,
+                'gradient': np.asarray(g_, dtype=float),
+                'pointwise': np.asarray(ll.compute_pointwise_ll(x))}
+    names_src0 = src_names(src)
+    hist = []
+    for step in range(int(rng.integers(1, 5))):
+        cur = list(a.get_parameter_names())
+        fixed_now = [n_ for n_ in full if n_ not in cur]
+        d = {}
+        for n_ in full:
+            r = rng.random()
+            if n_ in fixed_now and r < 0.5:
+                d[n_] = None
+            elif n_ not in fixed_now and r < 0.3 and len(cur) - len(
+                    [v for v in d.values() if v is not None]) > 1:
+                d[n_] = float(rng.uniform(0.2, 0.6))
+            elif n_ in fixed_now and r < 0.7:
+                d[n_] = float(rng.uniform(0.2, 0.6))
+        if not d:
+            d = {list(fixed_em)[0]: None}
+        hist.append({k_: (None if v is None else round(v, 3))
+                     for k_, v in d.items()})
+        try:
+            a.fix_parameters(d)
+            got = snapshot(b)
+            want = snapshot(b_twin)
+        except Exception as e:      # noqa
+            ctx.violation_exc('sibling_evaluation_raises', e,
+                              {'history_on_sibling': hist, 'case': feats},
+                              feats)
+            return
+        ctx.count('sibling_comparisons')
+        for key in want:
+            same = got[key] == want[key] if not isinstance(
+                want[key], np.ndarray) else (
+                np.shape(got[key]) == np.shape(want[key]) and np.allclose(
+                    got[key], want[key], rtol=1e-12, atol=0, equal_nan=True))
+            if not same:
+                ctx.violation('depends_only_on_own_fixed_set',
+                              'sibling_changed:%s:%s' % (route, key),
+                              {'what': key, 'sibling': got[key],
+                               'untouched_twin': want[key],
+                               'history_on_other_object': hist}, feats)
+                return
+        if src_names(src) != names_src0:
+            ctx.violation('depends_only_on_own_fixed_set',
+                          'source_object_changed:' + route,
+                          {'before': names_src0, 'now': src_names(src),
+                           'history_on_derived_object': hist}, feats)
+            return
+
+
 FAMILIES = [
     Family('random', random_case, quick=1600, thorough=30000),
     Family('exhaustive', exhaustive_case,
            quick=len(HISTS) * len(ADAPTERS),
            thorough=len(HISTS) * len(ADAPTERS) * 4),
+    Family('siblings', sibling_case, quick=240, thorough=2400),
 ]
